@@ -347,3 +347,53 @@ Lemma fixed_witnesses : forall w, In w [witness_hang; witness_alloc; witness_pan
 Proof.
   intros w [<-|[<-|[<-|[]]]]; eexists; (split; [vm_compute; reflexivity|vm_compute; discriminate]).
 Qed.
+
+(* ------------------------------------------------------------------ allocation bound of a load *)
+Lemma from_sized_deltas_alloc : forall W elem data, snd (from_sized_deltas_w W elem data) <= nlen data * elem.
+Proof.
+  intros W elem data. unfold from_sized_deltas_w. destruct (uvarint data) as [sz m] eqn:Eu.
+  destruct (m <=? 0)%Z eqn:Em; [simpl; lia|].
+  pose proof (uvarint_len _ _ _ Eu ltac:(lia)) as Hm.
+  assert (Hr : (length (skipn (Z.to_nat m) data) <= length data)%nat) by (rewrite skipn_length; lia).
+  destruct (MAXALLOC <? _); cbn [snd]; [lia|]. unfold nlen in *. nia.
+Qed.
+
+Lemma unmarshal_doc_sections_alloc : forall data, snd (unmarshal_doc_sections_a data) <= nlen data * 4.
+Proof.
+  intros data. unfold unmarshal_doc_sections_a. destruct (uvarint data) as [sz m] eqn:Eu.
+  destruct (m <=? 0)%Z eqn:Em; [simpl; lia|].
+  pose proof (uvarint_len _ _ _ Eu ltac:(lia)) as Hm.
+  assert (Hr : (length (skipn (Z.to_nat m) data) <= length data)%nat) by (rewrite skipn_length; lia).
+  destruct (MAXALLOC <? _); cbn [snd]; [lia|].
+  set (q := N.min sz (nlen (skipn (Z.to_nat m) data))).
+  assert (q <= nlen data) by (unfold q, nlen in *; lia).
+  pose proof (N.mul_div_le q 2 ltac:(discriminate)). lia.
+Qed.
+
+Lemma blob_of_len : forall f s b, blob_of f s = Ok b -> nlen b <= nlen (f_data f).
+Proof. intros f s b H. unfold blob_of in H. apply file_read_len in H. unfold nlen. lia. Qed.
+
+Ltac inv_bind H :=
+  match type of H with
+  | obind ?x _ = Ok _ => let E := fresh "E" in destruct x eqn:E; cbn [obind] in H; [|discriminate H|discriminate H]
+  | lift_a ?r _ = Ok _ => let E := fresh "E" in unfold lift_a at 1 in H; destruct (fst r) eqn:E; [|discriminate H|discriminate H]
+  | (if ?c then _ else _) = Ok _ => destruct c; [try discriminate H|try discriminate H]
+  end.
+
+(** everything make() is asked for while loading is bounded by 30 bytes per byte of the file *)
+Theorem load_alloc_bound : forall f next d, load_shard f next = Ok d -> i_alloc d <= 30 * nlen (f_data f).
+Proof.
+  intros f next d H. unfold load_shard in H. inv_bind H. unfold read_index, read_index_with in H.
+  repeat match type of H with context [toc_compound ?t ?n] => destruct (toc_compound t n) as [[? ?] ?] end.
+  cbv zeta in H.
+  repeat inv_bind H.
+  all: inversion H; subst; cbn [i_alloc].
+  all: repeat match goal with Hb : blob_of _ _ = Ok ?b |- _ => apply blob_of_len in Hb end.
+  all: repeat match goal with |- context [snd (from_sized_deltas_w ?W ?e ?b)] =>
+         let Hx := fresh "Hx" in pose proof (from_sized_deltas_alloc W e b) as Hx;
+         generalize dependent (snd (from_sized_deltas_w W e b)); intros end.
+  all: repeat match goal with |- context [snd (unmarshal_doc_sections_a ?b)] =>
+         let Hx := fresh "Hx" in pose proof (unmarshal_doc_sections_alloc b) as Hx;
+         generalize dependent (snd (unmarshal_doc_sections_a b)); intros end.
+  all: lia.
+Qed.
